@@ -15,7 +15,9 @@ EXPLANATION = (
     "All code of WallGo that touches the FIELD axis in the wall solver -- the tanh ansatz "
     "(wallProfile, both branches), the kinetic term and return value of action, the four "
     "numbers _updateGrid hands to the grid, _toWallParams, the start vector and the bounds "
-    "given to scipy.optimize.minimize, dV/dz, and the Fields index helpers -- is regenerated "
+    "given to scipy.optimize.minimize (method, use of the answer, relaxation), the clipping, "
+    "dV/dz, the kinetic term of temperatureProfileEqLHS, WallParams arithmetic and the Fields "
+    "index helpers -- is regenerated "
     "from equationOfMotion.py / fields.py by an axis-checking translator (tools/gen_fields.py)"
     " as functions of a LIST of per-field records. Coq proves for every number of fields and "
     "every relabelling new_j = s_j*old_p(j)+c_j (p a permutation, s_j=+-1): the profile and its"
@@ -23,9 +25,16 @@ EXPLANATION = (
     "(kinetic term invariant, potential part external), the grid parameters are invariant, "
     "dV/dz is invariant, pinning another field's offset is a z-translation (offsets "
     "d_i-(L_p/L_i)d_p, grid centre moves along), every non-pinned offset gets the symmetric "
-    "offset bounds, and the Fields helpers commute with column permutations. The model is "
+    "offset bounds, a relabelling that keeps the pinned field first maps the minimisation "
+    "problem (box and objective) one to one onto the old one so that minimisers correspond "
+    "exactly, and the Fields helpers commute with column permutations. Any comparison, "
+    "reduction, in-place store or positional index on field-axis data outside the model (EOM, "
+    "containers, manager, results, boltzmann, freeEnergy, effectivePotential, thermodynamics) "
+    "breaks the tie. The model is "
     "compared with the running methods by certified interval evaluation / vm_compute, the "
-    "action covariance is evaluated on the real EOM.action with the real quadrature, and the "
+    "action covariance is evaluated on the real EOM.action with the real quadrature (also with "
+    "out-of-equilibrium particles whose masses are relabelled along, through the real "
+    "_intermediatePressureResults and deltaToTmunu), and the "
     "whole pipeline (phase tracing, hydrodynamics, solveWall) is run on a two-field and a "
     "three-field polynomial model in relabelled coordinates (phases at the origin of no "
     "direction) and compared with the base run through the proved transformation laws.")
@@ -76,13 +85,12 @@ def to_new(basePoint, perm, sign, shift):
 
 
 def make_model(name, perm, sign, shift):
+    """model object whose field coordinates can be relabelled IN PLACE (relabel_model), as a
+    user does who re-parametrises one model object between two runs of one manager"""
     import WallGo
     from WallGo import EffectivePotential, Fields, GenericModel
     V = MODELS[name][0]
-    perm = tuple(perm)
     n = len(perm)
-    sg = np.asarray(sign, float)
-    sh = np.asarray(shift, float)
 
     class Veff(EffectivePotential):
         fieldCount = n
@@ -92,7 +100,7 @@ def make_model(name, perm, sign, shift):
             fields = Fields(fields)
             base = [None] * n
             for j in range(n):
-                base[perm[j]] = sg[j] * (fields.getField(j) - sh[j])
+                base[self.perm[j]] = self.sg[j] * (fields.getField(j) - self.sh[j])
             return V(base, temperature)
 
     class Model(GenericModel):
@@ -107,7 +115,15 @@ def make_model(name, perm, sign, shift):
         def getEffectivePotential(self):
             return self.veff
 
-    return Model()
+    m = Model()
+    relabel_model(m, perm, sign, shift)
+    return m
+
+
+def relabel_model(model, perm, sign, shift):
+    model.veff.perm = tuple(perm)
+    model.veff.sg = np.asarray(sign, float)
+    model.veff.sh = np.asarray(shift, float)
 
 
 class MinimizeSpy:
@@ -133,8 +149,10 @@ class MinimizeSpy:
         self.mod.minimize = self.orig
 
 
-def run_e2e(name="xsm2", perm=None, sign=None, shift=None):
-    """setupThermodynamicsHydrodynamics + equilibrium solveWall in relabelled coordinates"""
+def run_e2e(name="xsm2", perm=None, sign=None, shift=None, reuse=None, int_guess=False):
+    """setupThermodynamicsHydrodynamics + equilibrium solveWall in relabelled coordinates.
+    reuse = (manager, model) of an earlier run: the model is relabelled in place and the
+    same manager is set up and solved again.  int_guess: phase guesses of integer dtype."""
     import logging
     import WallGo
     from WallGo import Fields
@@ -144,12 +162,18 @@ def run_e2e(name="xsm2", perm=None, sign=None, shift=None):
     perm = tuple(perm) if perm is not None else tuple(range(n))
     sign = tuple(sign) if sign is not None else (1,) * n
     shift = tuple(shift) if shift is not None else (0.0,) * n
-    manager = WallGo.WallGoManager()
-    manager.registerModel(make_model(name, perm, sign, shift))
-    phaseInfo = WallGo.PhaseInfo(
-        temperature=TN,
-        phaseLocation1=Fields(to_new(ph1, perm, sign, shift)),
-        phaseLocation2=Fields(to_new(ph2, perm, sign, shift)))
+    if reuse is None:
+        manager = WallGo.WallGoManager()
+        model = make_model(name, perm, sign, shift)
+        manager.registerModel(model)
+    else:
+        manager, model = reuse
+        relabel_model(model, perm, sign, shift)
+    g1, g2 = to_new(ph1, perm, sign, shift), to_new(ph2, perm, sign, shift)
+    if int_guess:
+        g1, g2 = np.rint(g1).astype(int), np.rint(g2).astype(int)
+    phaseInfo = WallGo.PhaseInfo(temperature=TN, phaseLocation1=Fields(g1),
+                                 phaseLocation2=Fields(g2))
     manager.setupThermodynamicsHydrodynamics(
         phaseInfo, WallGo.VeffDerivativeSettings(
             temperatureVariationScale=1.0,
@@ -160,6 +184,8 @@ def run_e2e(name="xsm2", perm=None, sign=None, shift=None):
         res = manager.solveWall(settings)
     th = manager.thermodynamics
     cfg = manager.config.configEOM
+    prof = np.array(res.fieldProfiles, float) if getattr(res, "fieldProfiles", None) \
+        is not None else np.zeros((0, n))
     out = dict(
         model=name, n=n,
         success=bool(res.success), vw=_f(res.wallVelocity), vwLTE=_f(res.wallVelocityLTE),
@@ -170,9 +196,15 @@ def run_e2e(name="xsm2", perm=None, sign=None, shift=None):
         phaseHigh=[float(x) for x in np.ravel(th.freeEnergyHigh(TN).fieldsAtMinimum)],
         thickBounds=[float(x) for x in cfg.wallThicknessBounds],
         offBounds=[float(x) for x in cfg.wallOffsetBounds], Tnucl=float(th.Tnucl),
-        minimize_calls=len(spy.calls))
+        minimize_calls=len(spy.calls), profiles=prof.tolist())
+    if res.temperatureMinus is not None and res.temperaturePlus is not None:
+        out["vevLowTm"] = [float(x) for x in np.ravel(
+            th.freeEnergyLow(res.temperatureMinus).fieldsAtMinimum)]
+        out["vevHighTp"] = [float(x) for x in np.ravel(
+            th.freeEnergyHigh(res.temperaturePlus).fieldsAtMinimum)]
     out["bounds_seen"] = sorted({(tuple(float(v) for v in lb), tuple(float(v) for v in ub),
                                   len(x0)) for x0, lb, ub in spy.calls})
+    out["_handles"] = (manager, model)
     return out
 
 
@@ -206,77 +238,151 @@ def expected_from_base(base, perm, sign, shift):
     return exp
 
 
-# Tolerances, calibrated on the unchanged tree (see cov["rule"]).  The wall solver stops at
-# errTol = 1e-3 on the pressure.  When another field is pinned (perm[0] != 0) the grid is
-# centred elsewhere and the discretisation differs: observed scatter 4.2e-4 in vw, 3e-4 rel in
-# T+-, 1.2e-4 rel in the widths, 3e-4 of a width in the wall separation.  With the same field
-# order (pure translation / reflection) only rounding and the minimiser's termination differ:
-# observed 3e-7 in vw, 4e-5 rel in the widths.
-TOL_REPIN = dict(vw=4e-3, vwLTE=1e-5, vJ=1e-6, T=1.5e-3, width=0.03, sep=0.03, phase=1e-4)
+# Tolerances.  The wall solver's brentq stops at xtol = errTol = 1e-3 in vw.  When another
+# field is pinned (perm[0] != 0) the grid is centred elsewhere and the discretisation differs:
+# observed scatter 4.2e-4 in vw, 3e-4 rel in T+-, 1.2e-4 rel in the widths, 3e-4 of a width in
+# the wall separation -> vw 2*errTol, T+- 1.5e-3, widths / separation 5e-3 (40x the scatter).
+# With the same field order (translation / reflection) only rounding and the minimiser's
+# termination differ: observed 3e-7 in vw, 4e-5 rel in the widths (also for shifts 1e4, 1e6).
+TOL_REPIN = dict(vw=2e-3, vwLTE=1e-5, vJ=1e-6, T=1.5e-3, width=5e-3, sep=5e-3, phase=1e-4)
 TOL_SAME = dict(vw=2e-5, vwLTE=1e-5, vJ=1e-6, T=1e-5, width=5e-4, sep=5e-4, phase=1e-4)
 
 
-# The one recorded finding (known_findings.json) keeps its historical key; every other
-# relabelling has a key of its own, so that it is reported as a new violation.
+# The recorded finding (known_findings.json) keeps its historical key, but only for its own
+# input AND its own symptom: vw / T+- / widths / wall separation off by the recorded amounts
+# (vw 0.58678, widths 0.03987/0.04385/0.03618) with success=True.  Anything else observed on
+# that input (phases, vwLTE, vJ, first offset, success flag, profile end points, other numbers)
+# is reported under a key of its own.
 KNOWN_KEYS = {"e2e:xsm3:perm=201:sign=+++:shift=zero": "e2e:xsm3:pinned=2"}
+KNOWN_SIGNATURE = {"e2e:xsm3:pinned=2": dict(vw=0.586782, widths=[0.039869, 0.043849, 0.036182],
+                                             vw_tol=5e-4, width_tol=5e-3)}
 
 
-def e2e_key(model, perm, sign, shift):
+def e2e_key(model, perm, sign, shift, shift_class=None):
     k = "e2e:%s:perm=%s:sign=%s:shift=%s" % (
         model, "".join(str(p) for p in perm), "".join("+" if x > 0 else "-" for x in sign),
-        "zero" if not any(shift) else "nonzero")
-    return KNOWN_KEYS.get(k, k)
+        shift_class or ("zero" if not any(shift) else "nonzero"))
+    return k
 
 
-def compare_runs(ctx, base, new, perm, sign, shift, label):
+def compare_runs(ctx, base, new, perm, sign, shift, label, shift_class=None, same_tol=None):
+    """core = quantities the pinning finding is about (vw, T+-, widths, separation);
+    other = everything else.  Returns (ok, deviations)."""
     exp = expected_from_base(base, perm, sign, shift)
     n = len(perm)
-    TOL = TOL_SAME if list(perm) == list(range(n)) else TOL_REPIN
-    case = dict(model=base["model"], perm=list(perm), sign=list(sign), shift=list(shift))
-    bad = []
+    same = list(perm) == list(range(n)) if same_tol is None else same_tol
+    TOL = TOL_SAME if same else TOL_REPIN
+    case = dict(model=base["model"], perm=list(perm), sign=list(sign), shift=list(shift),
+                label=label)
+    core, other = [], []
     if not new["success"]:
-        bad.append("solveWall did not report success")
-    for k, tol in (("vw", TOL["vw"]), ("vwLTE", TOL["vwLTE"]), ("vJ", TOL["vJ"])):
+        other.append("solveWall did not report success")
+    for k, tol, lst in (("vw", TOL["vw"], core), ("vwLTE", TOL["vwLTE"], other),
+                        ("vJ", TOL["vJ"], other)):
         if new[k] is None or exp[k] is None:
             if new[k] != exp[k]:
-                bad.append("%s: %r vs base %r" % (k, new[k], exp[k]))
+                lst.append("%s: %r vs base %r" % (k, new[k], exp[k]))
         elif abs(new[k] - exp[k]) > tol:
-            bad.append("%s changed: %.8g vs base %.8g" % (k, new[k], exp[k]))
+            lst.append("%s changed: %.8g vs base %.8g" % (k, new[k], exp[k]))
     for k in ("Tplus", "Tminus"):
-        if abs(new[k] - exp[k]) > TOL["T"] * abs(exp[k]):
-            bad.append("%s changed: %.8g vs base %.8g" % (k, new[k], exp[k]))
-    for j in range(n):
-        if abs(new["widths"][j] - exp["widths"][j]) > TOL["width"] * exp["widths"][j]:
-            bad.append("width of new field %d: %.6g, base field %d has %.6g" % (
-                j, new["widths"][j], perm[j], exp["widths"][j]))
-    # wall positions z_j = -offset_j * width_j relative to the pinned wall
-    Lmax = max(exp["widths"])
-    for j in range(1, n):
-        zn = -new["offsets"][j] * new["widths"][j]
-        ze = -exp["offsets"][j] * exp["widths"][j]
-        if abs(zn - ze) > TOL["sep"] * Lmax:
-            bad.append("offset of new field %d: %.6g, expected %.6g (wall separation %.6g vs "
-                       "%.6g)" % (j, new["offsets"][j], exp["offsets"][j], zn, ze))
-    if new["offsets"][0] != 0.0:
-        bad.append("offset of the first field is %r, not 0" % new["offsets"][0])
+        if new[k] is None or exp[k] is None:
+            if new[k] != exp[k]:
+                core.append("%s: %r vs base %r" % (k, new[k], exp[k]))
+        elif abs(new[k] - exp[k]) > TOL["T"] * abs(exp[k]):
+            core.append("%s changed: %.8g vs base %.8g" % (k, new[k], exp[k]))
+    if len(new["widths"]) != n or len(new["offsets"]) != n:
+        other.append("result has %d widths / %d offsets for %d fields" % (
+            len(new["widths"]), len(new["offsets"]), n))
+    else:
+        for j in range(n):
+            if abs(new["widths"][j] - exp["widths"][j]) > TOL["width"] * exp["widths"][j]:
+                core.append("width of new field %d: %.6g, base field %d has %.6g" % (
+                    j, new["widths"][j], perm[j], exp["widths"][j]))
+        # wall positions z_j = -offset_j * width_j relative to the pinned wall
+        Lmax = max(exp["widths"])
+        for j in range(1, n):
+            zn = -new["offsets"][j] * new["widths"][j]
+            ze = -exp["offsets"][j] * exp["widths"][j]
+            if abs(zn - ze) > TOL["sep"] * Lmax:
+                core.append("offset of new field %d: %.6g, expected %.6g (wall separation "
+                            "%.6g vs %.6g)" % (j, new["offsets"][j], exp["offsets"][j], zn, ze))
+        if new["offsets"][0] != 0.0:
+            other.append("offset of the first field is %r, not 0" % new["offsets"][0])
     for k in ("phaseLow", "phaseHigh"):
         for j in range(n):
             if abs(new[k][j] - exp[k][j]) > TOL["phase"] * 246.0:
-                bad.append("%s[%d] = %.8g, expected %.8g" % (k, j, new[k][j], exp[k][j]))
+                other.append("%s[%d] = %.8g, expected %.8g" % (k, j, new[k][j], exp[k][j]))
+    # results.fieldProfiles: first / last row are the phases at T- / T+ and must be the
+    # relabelled ones of the base run; with the same grid (same order) every row is
+    P0, P1 = np.array(base["profiles"], float), np.array(new["profiles"], float)
+    if P1.shape != P0.shape or P1.shape[1:] != (n,) or len(P1) < 3:
+        other.append("fieldProfiles has shape %r, base run %r" % (P1.shape, P0.shape))
+    else:
+        want = np.array([to_new(r, perm, sign, shift) for r in P0])
+        scale = float(np.max(np.abs(P0[0] - P0[-1])))
+        tv = max(abs(new["Tminus"] - base["Tminus"]), abs(new["Tplus"] - base["Tplus"]))
+        # d(vev)/dT of these phases is < 3 field units per unit of T
+        endtol = TOL["phase"] * 246.0 + 3.0 * tv
+        for row, nm in ((0, "T-"), (-1, "T+")):
+            d = float(np.max(np.abs(P1[row] - want[row])))
+            if d > endtol:
+                other.append("fieldProfiles end point at %s is %r, relabelled base %r" % (
+                    nm, P1[row].tolist(), want[row].tolist()))
+        if same:
+            d = float(np.max(np.abs(P1 - want)))
+            if d > (5 * TOL["width"]) * scale + endtol:
+                core.append("fieldProfiles differ from the relabelled base profiles by %.3g "
+                            "(field range %.3g)" % (d, scale))
     dev = dict(vw=abs((new["vw"] or 0) - (exp["vw"] or 0)),
-               width=max(abs(new["widths"][j] / exp["widths"][j] - 1) for j in range(n)),
-               T=abs(new["Tplus"] / exp["Tplus"] - 1))
+               width=max(abs(new["widths"][j] / exp["widths"][j] - 1) for j in range(n))
+               if len(new["widths"]) == n else float("nan"),
+               T=abs((new["Tplus"] or 0) / exp["Tplus"] - 1))
     ctx.count("e2e_relabelled_run", case, bucket="%s:%s" % (base["model"], label))
-    if bad:
+    key = e2e_key(base["model"], perm, sign, shift, shift_class)
+    if core:
+        k = key
+        sig = KNOWN_SIGNATURE.get(KNOWN_KEYS.get(key))
+        if sig is not None and new["success"] and new["vw"] is not None and \
+                abs(new["vw"] - sig["vw"]) <= sig["vw_tol"] and len(new["widths"]) == n and \
+                all(abs(new["widths"][j] / sig["widths"][j] - 1) <= sig["width_tol"]
+                    for j in range(n)):
+            k = KNOWN_KEYS[key]
         fail_once(ctx, "relabelled run %s differs from the base run: %s" % (
-            json.dumps(case), "; ".join(bad[:4])),
-            dict(kind="e2e", case=case, base=_slim(base), new=_slim(new), differences=bad),
-            key=e2e_key(base["model"], perm, sign, shift))
-    return not bad, dev
+            json.dumps(case), "; ".join(core[:4])),
+            dict(kind="e2e", case=case, base=_slim(base), new=_slim(new), differences=core),
+            key=k)
+    if other:
+        fail_once(ctx, "relabelled run %s: %s" % (json.dumps(case), "; ".join(other[:4])),
+                  dict(kind="e2e", case=case, base=_slim(base), new=_slim(new),
+                       differences=other), key=key + ":other")
+    return not (core or other), dev
+
+
+def compare_int_guess(ctx, base, new, case):
+    """the same run with phase guesses of integer dtype must give the float run"""
+    n = base["n"]
+    ident = list(range(n))
+    bad_phase = []
+    for k in ("phaseLow", "phaseHigh"):
+        for j in range(n):
+            if abs(new[k][j] - base[k][j]) > TOL_SAME["phase"] * 246.0:
+                bad_phase.append("%s[%d] = %.8g with integer-typed guesses, %.8g with float "
+                                 "guesses" % (k, j, new[k][j], base[k][j]))
+    ctx.count("e2e_int_typed_guess", case)
+    if bad_phase:
+        fail_once(ctx, "phase locations depend on the dtype of the phase guesses: " +
+                  "; ".join(bad_phase[:4]),
+                  dict(kind="e2e-int", case=case, base=_slim(base), new=_slim(new),
+                       differences=bad_phase), key="int-dtype-phase-guess")
+    # everything else judged as usual (phases masked so that they are not reported twice)
+    new2 = dict(new, phaseLow=base["phaseLow"], phaseHigh=base["phaseHigh"])
+    ok, dev = compare_runs(ctx, base, new2, ident, [1] * n, [0.0] * n, "int-typed-guesses",
+                           shift_class="intguess")
+    return ok and not bad_phase, dev
 
 
 def _slim(r):
-    return {k: v for k, v in r.items() if k != "bounds_seen"}
+    return {k: v for k, v in r.items() if k not in ("bounds_seen", "_handles", "profiles")}
 
 
 def check_bounds_seen(ctx, run, case):
@@ -286,8 +392,10 @@ def check_bounds_seen(ctx, run, case):
     ol, oh = run["offBounds"]
     ok = True
     if abs(ol + oh) > 0:
-        ctx.assumptions.append("configured wallOffsetBounds are not symmetric: %r" %
-                               (run["offBounds"],))
+        # the symmetric-box conjunct of minimizer_bounds_aligned would be vacuous
+        msg = "tie: configured wallOffsetBounds are not symmetric: %r" % (run["offBounds"],)
+        if msg not in ctx.broken:
+            ctx.broken.append(msg)
     for lb, ub, nx in run["bounds_seen"]:
         ctx.count("minimize_bounds_seen")
         want_lb = [tl] * n + [ol] * (n - 1)
@@ -529,6 +637,184 @@ def unit_checks(ctx, rng):
     return rows
 
 
+def particle_checks(ctx, rng):
+    """the particle-mass clause and the assembly around the minimiser, on the real methods:
+    EOM.action with out-of-equilibrium particles, EOM._intermediatePressureResults end to end
+    (real potential derivatives, real quadrature, scipy.optimize.minimize replaced by a
+    recording stub) and EOM.deltaToTmunu, for a model / particle masses / configuration
+    relabelled together.  The field that is listed first after the relabelling has offset 0
+    like the first one (no z-translation involved, so equality is exact)."""
+    import types
+    import scipy.optimize
+    import WallGo
+    from WallGo import EOM, EffectivePotential, Fields, WallParams
+    from WallGo.fields import FieldPoint
+    grid = WallGo.Grid3Scales(20, 11, 5.0, 5.0, 1.0, 100.0, 0.5, 0.1)
+    npts = len(grid.xiValues)
+
+    def base_of(fields, perm, sign, shift):
+        f = Fields(fields)
+        n = len(perm)
+        b = [None] * n
+        for j in range(n):
+            b[perm[j]] = sign[j] * (f.getField(j) - float(shift[j]))
+        return b
+
+    def make_pot(n, co, perm, sign, shift, scales):
+        class QPot(EffectivePotential):
+            fieldCount = n
+            effectivePotentialError = 1e-15
+
+            def evaluate(self, fields, temperature):
+                b = base_of(fields, perm, sign, shift)
+                v = 0.0
+                for (i, k), c in co.items():
+                    v = v + c * b[i] ** 2 * b[k] ** 2
+                for i in range(n):
+                    v = v + 0.3 * (i + 1) * b[i] ** 2 + 0.05 * b[i] ** 3
+                return v * (1.0 + 0.01 * np.asarray(temperature))
+        pot = QPot()
+        pot.configureDerivatives(WallGo.VeffDerivativeSettings(
+            temperatureVariationScale=1.0,
+            fieldValueVariationScale=[scales[perm[j]] for j in range(n)]))
+        return pot
+
+    class Particle:
+        """msq = m0 + sum a_i b_i + sum q_ik b_i b_k in BASE coordinates b"""
+
+        def __init__(self, dofs, m0, a, q, perm, sign, shift):
+            self.totalDOFs, self.m0, self.a, self.q = dofs, m0, a, q
+            self.perm, self.sign, self.shift = perm, sign, shift
+
+        def msqVacuum(self, fields):
+            b = base_of(fields, self.perm, self.sign, self.shift)
+            n = len(b)
+            return self.m0 + sum(self.a[i] * b[i] for i in range(n)) + sum(
+                self.q[i][k] * b[i] * b[k] for i in range(n) for k in range(n))
+
+        def msqDerivative(self, fields):
+            b = base_of(fields, self.perm, self.sign, self.shift)
+            n = len(b)
+            db = [self.a[i] + sum((self.q[i][k] + self.q[k][i]) * b[k] for k in range(n))
+                  for i in range(n)]
+            return np.transpose([self.sign[j] * db[self.perm[j]] for j in range(n)])
+
+    for it in range(ctx.n(6, 60)):
+        n = rng.choice([2, 3, 3])
+        fs = rand_fields(rng, n)
+        perm = list(range(n))
+        rng.shuffle(perm)
+        # the field listed first after the relabelling also sits at offset 0, so that the
+        # packing (which drops the first offset) loses nothing in either order
+        fs[perm[0]] = fs[perm[0]][:3] + (Fraction(0),)
+        sign = [rng.choice([-1, 1]) for _ in range(n)]
+        shift = [dy(rng, -6, 6, 4) for _ in range(n)]
+        ident = (list(range(n)), [1] * n, [0] * n)
+        fs2 = relabel_fs(fs, perm, sign, shift)
+        case = dict(fields=[[str(x) for x in f] for f in fs], perm=perm, sign=sign,
+                    shift=[str(x) for x in shift])
+        co = {(i, k): float(dy(rng, 0, 2, 8)) for i in range(n) for k in range(i, n)}
+        scales = [float(dy(rng, 1, 4, 4)) for _ in range(n)]
+        pdata = [(float(rng.randint(1, 12)), float(dy(rng, 0, 3, 4)),
+                  [float(dy(rng, -2, 2, 4)) for _ in range(n)],
+                  [[float(dy(rng, -1, 1, 4)) for _ in range(n)] for _ in range(n)])
+                 for _ in range(2)]
+        D = {k: np.array([[float(dy(rng, -2, 2, 8)) for _ in range(npts)] for _ in pdata])
+             for k in ("Delta00", "Delta02", "Delta20", "Delta11")}
+        deltas = types.SimpleNamespace(**{k: types.SimpleNamespace(coefficients=v)
+                                          for k, v in D.items()})
+        Tprof = np.array([1.0 + 0.02 * k for k in range(npts)])
+        vprof = np.linspace(0.3, 0.5, npts)
+        outs = []
+        for (pm, sg, sh), conf in ((ident, fs), ((perm, sign, shift), fs2)):
+            st = eom_stub(n, grid, make_pot(n, co, pm, sg, sh, scales))
+            st.particles = [Particle(d, m0, a, q, pm, sg, sh) for d, m0, a, q in pdata]
+            st.thermo.Tnucl = 2.0
+            st.wallThicknessBounds, st.wallOffsetBounds = [0.1, 100.0], [-10.0, 10.0]
+            st.includeOffEq, st.boltzmannSolver = False, None
+            lo, hi = vevs(conf)
+            act = EOM.action(st, wallparams(conf), lo, hi, Tprof, deltas.Delta00)
+            rec = {}
+            orig = scipy.optimize.minimize
+
+            def stub(fun, x0, args=(), **kw):
+                rec["f"] = float(fun(np.array(x0, float), *args))
+                rec["x0"] = np.array(x0, float)
+                rec["kw"] = sorted(kw)
+                return types.SimpleNamespace(x=np.array(x0, float) * 1.01)
+            scipy.optimize.minimize = stub
+            try:
+                pr, wp, _, bg = EOM._intermediatePressureResults(
+                    st, wallparams(conf), lo, hi, 0.0, 0.0, 0.4,
+                    types.SimpleNamespace(Deltas=deltas), 1.0 + 0.02 * npts, 1.0,
+                    temperatureProfileInput=Tprof, velocityProfileInput=vprof)
+            finally:
+                scipy.optimize.minimize = orig
+            k = rng.randrange(npts) if (pm, sg, sh) == ident else outs[0]["k"]
+            P = EOM.wallProfile(st, grid.xiValues, lo, hi, wallparams(conf))[0]
+            tmunu = EOM.deltaToTmunu(st, k, P.getFieldPoint(k), 0.4, deltas)
+            outs.append(dict(k=k, action=float(act), obj=rec["f"], pressure=float(pr),
+                             widths=[float(x) for x in wp.widths],
+                             offsets=[float(x) for x in wp.offsets],
+                             tmunu=[float(np.ravel(x)[0]) for x in tmunu],
+                             bg=np.array(bg.fieldProfiles, float)))
+        a, b = outs
+        ctx.count("unit_particles", case, bucket="n=%d" % n)
+        bad = []
+
+        def rel(x, y, tol):
+            return abs(x - y) > tol * (1 + abs(x))
+        if rel(a["action"], b["action"], 1e-9):
+            bad.append("EOM.action with particles: %.12g vs %.12g" % (b["action"], a["action"]))
+        if rel(a["obj"], b["obj"], 1e-9):
+            bad.append("objective handed to the minimiser at x0: %.12g vs %.12g" % (
+                b["obj"], a["obj"]))
+        if rel(a["pressure"], b["pressure"], 1e-7):
+            bad.append("pressure of _intermediatePressureResults: %.12g vs %.12g" % (
+                b["pressure"], a["pressure"]))
+        for nm in ("widths", "offsets"):
+            want = [a[nm][perm[j]] for j in range(n)]
+            if not np.allclose(b[nm], want, rtol=1e-12, atol=1e-12):
+                bad.append("%s returned %r, expected the permuted %r" % (nm, b[nm], want))
+        if b["offsets"][0] != 0.0:
+            bad.append("first offset returned is %r" % b["offsets"][0])
+        if rel(a["tmunu"][0], b["tmunu"][0], 1e-9) or rel(a["tmunu"][1], b["tmunu"][1], 1e-9):
+            bad.append("deltaToTmunu: %r vs %r" % (b["tmunu"], a["tmunu"]))
+        want_bg = np.array([to_new(r, perm, sign, [float(x) for x in shift]) for r in a["bg"]])
+        if b["bg"].shape != want_bg.shape or np.max(np.abs(b["bg"] - want_bg)) > 1e-10 * (
+                1 + np.max(np.abs(want_bg))):
+            bad.append("Boltzmann background fieldProfiles are not the relabelled ones")
+        if bad:
+            fail_once(ctx, "relabelled model + particle masses + configuration: " +
+                      "; ".join(bad[:3]),
+                      dict(kind="particles", case=case, differences=bad,
+                           quartic={str(k): v for k, v in co.items()},
+                           particles=[list(map(str, p)) for p in pdata]),
+                      key="unit:particles:" + bad[0].split(":")[0].split(" ")[0])
+
+
+def int_dtype_check(ctx):
+    """findLocalMinimum with a phase guess of integer dtype (what a user types: Fields([0,
+    110])) against the same guess as floats, on the xsm2 potential, plain and translated"""
+    from WallGo import Fields
+    for shift in ((0.0, 0.0), (0.5, 0.5)):
+        pot = make_model("xsm2", (0, 1), (1, 1), shift).getEffectivePotential()
+        gi = np.rint(np.array([0.0, 110.0]) + shift[0] * 0).astype(int)
+        loc_i, _ = pot.findLocalMinimum(Fields(gi), TN)
+        loc_f, _ = pot.findLocalMinimum(Fields(gi.astype(float)), TN)
+        ctx.count("unit_int_dtype_guess", dict(shift=shift))
+        d = float(np.max(np.abs(np.ravel(loc_i) - np.ravel(loc_f))))
+        if d > 1e-4 * 246.0:
+            fail_once(ctx, "findLocalMinimum from the integer-typed guess %r returns %r, from the "
+                      "same guess as floats %r (model translated by %r)" % (
+                          gi.tolist(), np.ravel(loc_i).tolist(), np.ravel(loc_f).tolist(),
+                          shift),
+                      dict(kind="int-dtype", shift=list(shift), guess=gi.tolist(),
+                           int_result=np.ravel(loc_i).tolist(),
+                           float_result=np.ravel(loc_f).tolist()),
+                      key="int-dtype-phase-guess")
+
+
 def fields_cases(ctx, rng):
     """Fields helpers vs the generated index maps on integer matrices (vm_compute)"""
     from WallGo import Fields
@@ -653,48 +939,97 @@ Ltac ev := cbv beta iota delta [wallProfile_ret0 wallProfile_ret1 action_ret tem
 # ------------------------------------------------------------------------------------
 
 def transformations(ctx):
-    """(model, perm, sign, shift, label)"""
-    # partial reflections (an ODD number of fields reflected) are what exposes cross terms
-    # phi_i' phi_j' / phi_i phi_j; both single-field reflections are in the quick tier, one
-    # of them combined with the translation
-    quick = [("xsm2", (1, 0), (1, 1), (0.0, 0.0), "permutation"),
-             ("xsm2", (0, 1), (-1, 1), (60.0, -45.0), "translation+reflection"),
-             ("xsm2", (0, 1), (1, -1), (0.0, 0.0), "reflection"),
-             # three fields with the light follower field listed first: the recorded finding
-             # "e2e:xsm3:pinned=2" (result depends on which wall is pinned), replayed on every
-             # run so that it is noticed when it goes away or changes
-             ("xsm3", (2, 0, 1), (1, 1, 1), (0.0, 0.0, 0.0), "pin-light-field")]
+    """list of dict(model, perm, sign, shift | special, label, reuse, int_guess).
+    special shifts are computed from the base run's phases AT THE SOLUTION (T-, T+):
+      ("nearzero", [(phase, delta), ...]) : new coordinate j of that phase = delta_j
+      ("equal", phase, value)            : all new coordinates of that phase = value"""
+    rng = ctx.rng
+    dl = [x * 1e-2 * TN for x in (0.3, -0.3, 0.9, -0.9)]
+    quick = [
+        # the swap, on the SAME manager and model object as the base run (relabelled in place)
+        dict(model="xsm2", perm=(1, 0), sign=(1, 1), shift=(0.0, 0.0), label="permutation",
+             reuse=True),
+        # partial reflections (an ODD number of fields reflected) expose cross terms
+        # phi_i' phi_j'; the shifts put one coordinate of each phase next to the origin /
+        # make the two coordinates of a phase equal (special values of the new origin)
+        dict(model="xsm2", perm=(0, 1), sign=(-1, 1),
+             special=("nearzero", [("low", rng.choice(dl)), ("high", rng.choice(dl))]),
+             label="reflection+nearzero"),
+        dict(model="xsm2", perm=(0, 1), sign=(1, -1), special=("equal", "high", 40.0),
+             label="reflection+equal"),
+        # three fields, s pinned: decidable in the quick tier
+        dict(model="xsm3", perm=(1, 0, 2), sign=(-1, 1, -1),
+             shift=tuple(float(rng.randint(-120, 120)) for _ in range(3)), label="general"),
+        # three fields with the light follower field listed first: the recorded finding
+        # "e2e:xsm3:pinned=2" (result depends on which wall is pinned), replayed on every run
+        dict(model="xsm3", perm=(2, 0, 1), sign=(1, 1, 1), shift=(0.0, 0.0, 0.0),
+             label="pin-light-field")]
     if ctx.quick:
         return quick
     out = list(quick)
-    out.append(("xsm2", (0, 1), (1, 1), (60.0, -45.0), "translation"))
-    out.append(("xsm2", (0, 1), (-1, 1), (0.0, 0.0), "reflection"))
-    out.append(("xsm2", (0, 1), (-1, -1), (0.0, 0.0), "reflection"))
-    rng = ctx.rng
+    # history: the base manager a third time, back in the original order, translated
+    out.insert(1, dict(model="xsm2", perm=(0, 1), sign=(1, 1), shift=(60.0, -45.0),
+                       label="translation", reuse=True))
+    out.append(dict(model="xsm2", perm=(0, 1), sign=(1, 1), shift=(0.0, 0.0),
+                    label="int-typed-guesses", int_guess=True))
+    out.append(dict(model="xsm2", perm=(0, 1), sign=(-1, 1), shift=(0.0, 0.0),
+                    label="reflection"))
+    out.append(dict(model="xsm2", perm=(0, 1), sign=(-1, -1), shift=(0.0, 0.0),
+                    label="reflection"))
+    for ph in ("low", "high"):
+        out.append(dict(model="xsm2", perm=(0, 1), sign=(1, 1),
+                        special=("nearzero", [(ph, 0.0), (ph, rng.choice(dl))]),
+                        label="nearzero"))
+    out.append(dict(model="xsm2", perm=(1, 0), sign=(1, -1), special=("equal", "low", -25.0),
+                    label="equal"))
     for perm in ((0, 1), (1, 0)):
         for sign in itertools.product((1, -1), repeat=2):
             shift = (float(rng.randint(-120, 120)), float(rng.randint(-120, 120)))
-            out.append(("xsm2", perm, sign, shift, "general"))
-    out.append(("xsm2", (1, 0), (1, 1), (-30.0, 75.0), "general"))
+            out.append(dict(model="xsm2", perm=perm, sign=sign, shift=shift, label="general"))
     # three fields: every ordering that pins h or s, with random signs and shifts
-    for perm in ((0, 1, 2), (0, 2, 1), (1, 0, 2), (1, 2, 0)):
+    for perm in ((0, 1, 2), (0, 2, 1), (1, 2, 0)):
         sign = (-1, 1, -1) if perm == (0, 1, 2) else tuple(rng.choice((1, -1))
                                                              for _ in range(3))
         shift = tuple(float(rng.randint(-120, 120)) for _ in range(3))
-        out.append(("xsm3", perm, sign, shift, "general"))
+        out.append(dict(model="xsm3", perm=perm, sign=sign, shift=shift, label="general"))
+    out.append(dict(model="xsm3", perm=(0, 2, 1), sign=(1, -1, 1),
+                    special=("nearzero", [("low", rng.choice(dl)), ("low", rng.choice(dl)),
+                                          ("high", rng.choice(dl))]), label="nearzero"))
     return out
+
+
+def resolve_shift(tr, base):
+    """(shift, shift_class) of a transformation, special ones from the base run's phases"""
+    perm, sign = tr["perm"], tr["sign"]
+    n = len(perm)
+    if "special" not in tr:
+        return tuple(tr["shift"]), None
+    sp = tr["special"]
+    coord = dict(low=base["vevLowTm"], high=base["vevHighTp"])
+    if sp[0] == "nearzero":
+        return tuple(-sign[j] * coord[sp[1][j][0]][perm[j]] + sp[1][j][1]
+                     for j in range(n)), "nearzero"
+    if sp[0] == "equal":
+        return tuple(sp[2] - sign[j] * coord[sp[1]][perm[j]] for j in range(n)), "equal"
+    raise ValueError(sp)
 
 
 def run(ctx):
     rng = ctx.rng
+    _SEEN.clear()
     # (1) gen ---------------------------------------------------------------------------
     gen_ok = True
     try:
         esrc, fsrc = vlib.read_src("equationOfMotion.py"), vlib.read_src("fields.py")
-        text, spans = gen_fields.generate(esrc, fsrc)
+        others = {f: vlib.read_src(f) for f in gen_fields.SCAN_FILES}
+        text, spans = gen_fields.generate(esrc, fsrc, others)
         ctx.write("FieldGen.v", text, sources=dict(
-            files=["src/WallGo/equationOfMotion.py", "src/WallGo/fields.py"],
-            sha=[vlib.sha(esrc), vlib.sha(fsrc)], spans=spans))
+            files=["src/WallGo/equationOfMotion.py", "src/WallGo/fields.py"] +
+            ["src/WallGo/" + f for f in gen_fields.SCAN_FILES if f != "equationOfMotion.py"],
+            sha=[vlib.sha(esrc), vlib.sha(fsrc)] + [vlib.sha(others[f]) for f in
+                                                    gen_fields.SCAN_FILES
+                                                    if f != "equationOfMotion.py"],
+            spans=spans))
     except pyrx.TranslateError as e:
         ctx.log("translator failed:", e)
         ctx.broken.append("translator: %s" % e)
@@ -711,41 +1046,83 @@ def run(ctx):
         import traceback
         ctx.log("unit checks raised", traceback.format_exc())
         ctx.broken.append("harness: unit checks raised %r" % ex)
+    for fn_, nm in ((particle_checks, "particle"), (int_dtype_check, "int dtype")):
+        try:
+            fn_(ctx, rng) if fn_ is particle_checks else fn_(ctx)
+        except Exception as ex:
+            import traceback
+            ctx.log("%s checks raised" % nm, traceback.format_exc())
+            ctx.broken.append("harness: %s checks raised %r" % (nm, ex))
     # (4b) end-to-end metamorphic runs -----------------------------------------------------
     bases = {}
-    try:
-        for name, perm, sign, shift, label in transformations(ctx):
-            if name not in bases:
-                base = bases[name] = run_e2e(name)
-                ctx.log("base run %s: vw=%.8f vwLTE=%.8f vJ=%.8f T-=%.5f T+=%.5f widths=%r "
-                        "offsets=%r" % (name, base["vw"], base["vwLTE"], base["vJ"],
-                                        base["Tminus"], base["Tplus"], base["widths"],
-                                        base["offsets"]))
-                ctx.sample(dict(base_run=_slim(base)))
-                n = base["n"]
-                check_bounds_seen(ctx, base, dict(model=name, perm=list(range(n)),
-                                                  sign=[1] * n, shift=[0] * n))
-                if not base["success"] or base["vw"] is None:
-                    ctx.broken.append("harness: base run %s did not succeed" % name)
-                if base["bounds_seen"]:
-                    rows.append(("bounds", n, base["thickBounds"] + base["offBounds"] +
-                                 [base["Tnucl"]], list(base["bounds_seen"][0][0]),
-                                 list(base["bounds_seen"][0][1])))
-            base = bases[name]
-            new = run_e2e(name, perm, sign, shift)
-            ok, dev = compare_runs(ctx, base, new, perm, sign, shift, label)
-            check_bounds_seen(ctx, new, dict(model=name, perm=list(perm), sign=list(sign),
-                                             shift=list(shift)))
-            ctx.log("%s %s perm=%r sign=%r shift=%r: vw=%.8f widths=%r offsets=%r dev=%s %s" % (
-                name, label, perm, sign, shift, new["vw"] or float("nan"), new["widths"],
-                new["offsets"], " ".join("%s:%.1e" % kv for kv in dev.items()),
-                "ok" if ok else "DIFFERS"))
-            ctx.sample(dict(relabelled_run=dict(model=name, perm=perm, sign=sign, shift=shift,
-                                                result=_slim(new))))
-    except Exception as ex:
-        import traceback
-        ctx.log("end-to-end run raised", traceback.format_exc())
-        ctx.broken.append("harness: end-to-end run raised %r" % ex)
+    import traceback
+    for tr in transformations(ctx):
+        name = tr["model"]
+        if name not in bases:
+            try:
+                base = run_e2e(name)
+            except Exception as ex:
+                ctx.log("base run raised", traceback.format_exc())
+                ctx.broken.append("harness: base run %s raised %r" % (name, ex))
+                bases[name] = None
+                continue
+            bases[name] = base
+            ctx.log("base run %s: vw=%.8f vwLTE=%.8f vJ=%.8f T-=%.5f T+=%.5f widths=%r "
+                    "offsets=%r" % (name, base["vw"], base["vwLTE"], base["vJ"],
+                                    base["Tminus"], base["Tplus"], base["widths"],
+                                    base["offsets"]))
+            ctx.sample(dict(base_run=_slim(base)))
+            n = base["n"]
+            check_bounds_seen(ctx, base, dict(model=name, perm=list(range(n)),
+                                              sign=[1] * n, shift=[0] * n))
+            if not base["success"] or base["vw"] is None:
+                ctx.broken.append("harness: base run %s did not succeed" % name)
+            # the profile end points are the phases at T-, T+
+            P = np.array(base["profiles"], float)
+            if len(P) < 3 or np.max(np.abs(P[0] - base["vevLowTm"])) > 1e-6 or \
+                    np.max(np.abs(P[-1] - base["vevHighTp"])) > 1e-6:
+                fail_once(ctx, "results.fieldProfiles of the base run does not start/end at "
+                          "the phases at T-/T+", dict(kind="e2e-base", model=name,
+                                                      first=P[:1].tolist(), last=P[-1:].tolist(),
+                                                      vevLowTm=base["vevLowTm"],
+                                                      vevHighTp=base["vevHighTp"]),
+                          key="e2e:%s:profile-endpoints" % name)
+            if base["bounds_seen"]:
+                rows.append(("bounds", n, base["thickBounds"] + base["offBounds"] +
+                             [base["Tnucl"]], list(base["bounds_seen"][0][0]),
+                             list(base["bounds_seen"][0][1])))
+        base = bases[name]
+        if base is None:
+            continue
+        perm, sign, label = tr["perm"], tr["sign"], tr["label"]
+        shift, sclass = resolve_shift(tr, base)
+        case = dict(model=name, perm=list(perm), sign=list(sign), shift=list(shift),
+                    label=label, reuse=bool(tr.get("reuse")), int_guess=bool(tr.get("int_guess")))
+        key = e2e_key(name, perm, sign, shift, sclass)
+        try:
+            new = run_e2e(name, perm, sign, shift,
+                          reuse=base["_handles"] if tr.get("reuse") else None,
+                          int_guess=bool(tr.get("int_guess")))
+        except Exception as ex:
+            ctx.log("relabelled run raised", traceback.format_exc())
+            ctx.count("e2e_relabelled_run", case, bucket="%s:%s" % (name, label))
+            fail_once(ctx, "relabelled run %s raised %r (the base run succeeded)" % (
+                json.dumps(case), ex), dict(kind="e2e", case=case, raised=repr(ex)),
+                key=key + (":reused-manager" if tr.get("reuse") else "") + ":raised")
+            continue
+        if tr.get("int_guess"):
+            ok, dev = compare_int_guess(ctx, base, new, case)
+        else:
+            ok, dev = compare_runs(ctx, base, new, perm, sign, shift,
+                                   label + ("+reused-manager" if tr.get("reuse") else ""),
+                                   shift_class=sclass)
+        check_bounds_seen(ctx, new, case)
+        ctx.log("%s %s perm=%r sign=%r shift=%r: vw=%.8f widths=%r offsets=%r dev=%s %s" % (
+            name, label, perm, sign, tuple(round(x, 4) for x in shift),
+            new["vw"] or float("nan"), new["widths"],
+            new["offsets"], " ".join("%s:%.1e" % kv for kv in dev.items()),
+            "ok" if ok else "DIFFERS"))
+        ctx.sample(dict(relabelled_run=dict(case=case, result=_slim(new))))
     # (3) correspondence model <-> implementation -------------------------------------------
     import os
     if gen_ok and os.path.exists(os.path.join(ctx.bdir, "FieldGen.vo")):
@@ -772,16 +1149,27 @@ def run(ctx):
         "xsm2 = xSM-like two-field high-T potential (phases (0,s) and (v,0), per-field FD "
         "scales 50/30 permuted along), xsm3 = the same plus a heavy field following "
         "0.3 h^2/246 (third wall, same free energies); Tn=100, equilibrium solveWall, default "
-        "config (energy-momentum conservation on). quick = xsm2 base + swap + reflection of the "
-        "first field with translation (60,-45) + reflection of the second field, and the "
-        "recorded xsm3 finding "
-        "(chi listed first); thorough adds both xsm2 orderings x all four sign patterns with "
-        "random integer shifts in [-120,120]^2, pure reflections, and the four xsm3 orderings "
-        "that pin h or s with random signs/shifts. Tolerances when another field is pinned: vw "
-        "4e-3 (brentq xtol = errTol = 1e-3; observed 4.2e-4), T+- 1.5e-3 rel (observed 3e-4), "
-        "widths 3% (observed 1.1e-4), wall separation 3% of the largest width; same field "
-        "order: vw 2e-5 (observed 3e-7), T+- 1e-5, widths and separation 5e-4 (observed "
-        "4e-5); always vwLTE 1e-5, vJ 1e-6, phases 1e-4*246.")
+        "config (energy-momentum conservation on). quick = xsm2 base; the swap ON THE SAME "
+        "manager and model object (relabelled in place); reflection (-,+) with a shift that "
+        "puts the h coordinate of the low-T phase at T- and the s coordinate of the high-T "
+        "phase at T+ at delta in {+-0.3,+-0.9} (seeded) next to the origin; reflection (+,-) "
+        "with both coordinates of the high-T phase equal to 40; xsm3 (s,h,chi) with signs "
+        "(-,+,-) and seeded integer shifts; the recorded xsm3 finding (chi listed first, "
+        "matched to its key only if vw and widths are the recorded ones). thorough adds a "
+        "third use of the same manager, integer-typed phase guesses, exact-zero and two-"
+        "coordinate near-zero shifts for either phase, equal coordinates with a swap, both "
+        "xsm2 orderings x all four sign patterns with random integer shifts in [-120,120]^2, "
+        "pure reflections, and the xsm3 orderings that pin h or s with random signs/shifts and "
+        "near-zero shifts. Compared: vw, vwLTE, vJ, T+-, widths, wall separations through the "
+        "re-pinning law, phases at Tn, results.fieldProfiles (end points always, every row for "
+        "the same field order). Tolerances when another field is pinned: vw 2e-3 = 2*errTol "
+        "(observed 4.2e-4), T+- 1.5e-3 rel (observed 3e-4), widths and separation 5e-3 "
+        "(observed 1.2e-4); same field order: vw 2e-5 (observed 3e-7), T+- 1e-5, widths and "
+        "separation 5e-4 (observed 4e-5); always vwLTE 1e-5, vJ 1e-6, phases 1e-4*246. "
+        "Particle clause: 2-3 fields, two stub particles with quadratic mass forms and random "
+        "Delta00/02/20/11 relabelled along, through EOM.action, EOM._intermediatePressureResults "
+        "(real derivField and quadrature, minimiser replaced by a recording stub) and "
+        "EOM.deltaToTmunu.")
     ctx.assumptions += [
         "the potential part U of the action (user potential evaluated on the profile + "
         "spectral quadrature) is a functional of the profile that is invariant when profile "
@@ -797,10 +1185,21 @@ def replay(rep):
     print(json.dumps({k: v for k, v in rep.items() if k not in ("base", "new")}, indent=1))
     kind = rep.get("kind")
     c = rep.get("case", {})
-    if kind in ("e2e", "bounds"):
+    if kind == "int-dtype":
+        from WallGo import Fields
+        pot = make_model("xsm2", (0, 1), (1, 1), tuple(rep.get("shift", (0.0, 0.0)))
+                         ).getEffectivePotential()
+        g = np.array(rep.get("guess", [0, 110]), int)
+        print("int guess  ->", np.ravel(pot.findLocalMinimum(Fields(g), TN)[0]).tolist())
+        print("float guess->", np.ravel(pot.findLocalMinimum(Fields(g.astype(float)),
+                                                             TN)[0]).tolist())
+        return 0
+    if kind in ("e2e", "bounds", "e2e-int"):
         name = c.get("model", "xsm2")
         base = run_e2e(name)
-        new = run_e2e(name, tuple(c["perm"]), tuple(c["sign"]), tuple(c["shift"]))
+        new = run_e2e(name, tuple(c["perm"]), tuple(c["sign"]), tuple(c["shift"]),
+                      reuse=base["_handles"] if c.get("reuse") else None,
+                      int_guess=bool(c.get("int_guess")))
         print("base:", json.dumps(_slim(base)))
         print("new :", json.dumps(_slim(new)))
         print("bounds seen:", new["bounds_seen"])
